@@ -393,6 +393,12 @@ func extPoolGet(fr *frame, args []value) (value, bool) {
 // ---- atomics
 
 func extAtomicLoad(fr *frame, args []value) (value, bool) {
+	i := fr.i
+	if h := i.hooks["poll"]; h != nil && !i.inHook {
+		i.inHook = true
+		call(i, fr, token.NoPos, h, nil)
+		i.inHook = false
+	}
 	fr.i.atomicPoint(args[0].(*value), false)
 	return *args[0].(*value), true
 }
